@@ -438,13 +438,8 @@ def gen_mix(rng: random.Random, call: dict, files: typing.List[dict]) -> dict:
     if call["fn"] == "files":
         dirs = dirs + [list(files[i]["dir"]) for i in call["targets"]]
     cwds: typing.List[list] = [[], [], ["elsewhere"]] + [list(d[:-1]) for d in dirs] + [list(rng.choice(dirs))]
-    if call["fn"] == "files":
-        # EXCLUDED INPUT CLASS (genuine defect of the unchanged pydsdl, reported; see the C10 entry of reg/ns.py): a root namespace
-        # directory of read_files spelled "." (the working directory IS the root).  Every relative target - also one that lies
-        # under another root, e.g. ../../w1/beta/A.1.0.dsdl - is "relative to" Path(".") as a pure path, so that root is inferred
-        # for it and a bare ValueError ("is not in the subpath of") escapes.  The working directory of a MIX is therefore never
-        # one of the roots of a read_files call.
-        cwds = [c for c in cwds if c not in [list(x) for x in call["roots"]]]
+    # (a root of read_files spelled "." - the working directory IS the root - used to be excluded here: every relative target
+    #  was lexically "relative to" Path("."), a bare ValueError escaped; repaired in /repo by 1e7d19c, recorded in known_findings.json)
     mix: dict = {"mix": 1, "cwd": rng.choice(cwds)}
     lks = _uniq([list(x) for x in call["lookups"]])
     if call["fn"] == "ns":
